@@ -573,7 +573,7 @@ func cmdOrder(args []string) {
 	var sample ev.M
 	if len(h.obs) > 1 {
 		o := h.obs[1]
-		sample = ev.M{"tag": o.tag, "st": o.st[:8]}
+		sample = ev.M{"tag": o.tag, "st": o.st[:min(8, len(o.st))]}
 	}
 	ev.WriteJSON(out("summary.json"), ev.M{"events": n, "lint_calls": h.nLint, "san_variants": sanVariants, "ext_variants": extVariants, "planted_pairs": planted,
 		"vocabulary": len(vocab), "behaviour_classes": behaviourClasses, "bases": len(nonTrivial), "observations_with_finding": withFinding, "templates": len(templates), "sample": sample,
